@@ -41,9 +41,9 @@ PROPS = {
         "assumptions": ["no Value is shared between two rows or keys (sharing is the subject of C15)"],
     },
     "C17": {
-        "streams": [{"name": "rowops"}, {"name": "json"}],
-        "rule": "json stream (every line, well-formed or not — truncations, stray delimiters at every position, trailing content — through UnmarshalJSON, CreateRow(text), Importer.ReadOne / GetRow, Exporter.Export and the importer+exporter pipeline, each under recover()) ++ rowops stream with the hostile argument generator (absent / empty keys, indexes -2..6, paths of 0-4 segments incl. empty ones, nil Values, struct / pointer / NaN values, MapTo on non-pointers, nil and mismatching structs); every call runs under recover(); plus the resource oracle (failing leaf nested 1-24 deep, time and error size bounded) and nesting depth 100/1000 (10^4 in the thorough tier)",
-        "trusted_base": TB_COMMON + ["hand model JL.model.Row of row.go/value.go (tied by this stream only)", "stack depth and resource use are properties of the Go runtime: checked on the implementation only"],
+        "streams": [{"name": "rowops"}, {"name": "json"}, {"name": "template"}],
+        "rule": "template stream (typed input / output templates with sub-rows, lines against them, CreateRow on slices / maps / rows / texts, each call under recover(): the outcomes, Panic included, are compared with get_row / create_row / export_bytes of JL.model.Template inside coqc) ++ json stream (every line, well-formed or not — truncations, stray delimiters at every position, trailing content — through UnmarshalJSON, CreateRow(text), Importer.ReadOne / GetRow, Exporter.Export and the importer+exporter pipeline, each under recover()) ++ rowops stream with the hostile argument generator (absent / empty keys, indexes -2..6, paths of 0-4 segments incl. empty ones, nil Values, struct / pointer / NaN values, MapTo on non-pointers, nil and mismatching structs); every call runs under recover(); plus the resource oracle (failing leaf nested 1-24 deep, time and error size bounded) and nesting depth 100/1000 (10^4 in the thorough tier)",
+        "trusted_base": TB_COMMON + ["hand model JL.model.Row of row.go/value.go (tied by this stream only)", "hand model JL.model.Template / TemplateJson of template.go, row.MarshalJSON, value.MarshalJSON, exporter.Export and importer.GetRow (tied by the template stream only)", "stack depth and resource use are properties of the Go runtime: checked on the implementation only"],
         "assumptions": [],
     },
     "C18": {
